@@ -1169,10 +1169,14 @@ class CodeBuilder:
     ) -> typing.Tuple[str, typing.Optional[str], bool]:
         metadata = self.metadatas.get(fname, {})
         alias = self.__get_field_alias(fname, ftype, metadata, config)
+        # Annotated[Optional[X], ...] is as nullable as Optional[X]
+        bare_type = get_args(ftype)[0] if is_annotated(ftype) else ftype
         could_be_none = (
             ftype in (typing.Any, type(None), None)
             or is_type_var_any(self.get_real_type(fname, ftype))
-            or is_optional(ftype, self.get_field_resolved_type_params(fname))
+            or is_optional(
+                bare_type, self.get_field_resolved_type_params(fname)
+            )
             or self.get_field_default(fname) is None
         )
         value = "value" if could_be_none or force_value else f"self.{fname}"
